@@ -11,6 +11,8 @@ import (
 
 	"github.com/echovault/sugardb/internal"
 	"github.com/echovault/sugardb/internal/aof"
+	logstore "github.com/echovault/sugardb/internal/aof/log"
+	"github.com/echovault/sugardb/internal/aof/preamble"
 	"github.com/echovault/sugardb/internal/constants"
 	vr "github.com/echovault/sugardb/internal/verifrt"
 )
@@ -49,7 +51,7 @@ func (m *aofFile) Sync() error          { m.synced = len(m.data); return nil }
 func (m *aofFile) VerifContent() []byte { return m.data }
 
 // verifAOFServer: a real server whose AOF engine writes to the given in-memory files.
-func verifAOFServer(logFile, preambleFile *aofFile, strategy string) *SugarDB {
+func verifAOFServer(logFile logstore.ReadWriter, preambleFile preamble.ReadWriter, strategy string) *SugarDB {
 	s := verifServer()
 	engine, err := aof.NewAOFEngine(
 		aof.WithClock(s.clock),
